@@ -165,27 +165,37 @@ Verdict(D) ==
              ELSE [cls |-> "arbitrary", why |-> w, broken |-> br, codes |-> {}, at |-> {}]
 
 -----------------------------------------------------------------------------
-\* Part 4: bounded grammar.  GVd[n] = values of container depth <= d (d <= 3) with exactly n nodes,
+\* Part 4: bounded grammar: values of container depth <= MaxDepth with at most MaxNodes nodes,
 \* at most 2 members per container, object keys in the order of Keys.
+\* Ld_n = values of depth <= d with exactly n nodes.  They are written out as parameterless constant
+\* definitions (TLC evaluates those once; a recursive operator or function would be re-evaluated at
+\* every use, and TLC's set union is quadratic), for d <= 2 and n <= 4, which is what depth 3 / 5 nodes needs.
 KeyPairs == {p \in (1..Len(Keys)) \X (1..Len(Keys)) : p[1] < p[2]}
-\* one more level of containers over the values P[n] (n = node count) of the level below.
-\* (No UNION over the big sets: TLC builds UNION with a quadratic membership scan.)
-TwoOf(P, a, n) == IF a < 1 \/ a > n - 2 THEN {}
-                  ELSE {List(<<v, w>>) : v \in P[a], w \in P[n - 1 - a]}
-                       \cup {Obj(<< <<Keys[p[1]], v>>, <<Keys[p[2]], w>> >>) :
-                                p \in KeyPairs, v \in P[a], w \in P[n - 1 - a]}
-Grow(P) == [n \in 1..MaxNodes |->
-              (IF n = 1 THEN GScalars \cup {List(<<>>), Obj(<<>>)} ELSE {})
-              \cup (IF n < 2 THEN {} ELSE
-                      {List(<<v>>) : v \in P[n - 1]}
-                      \cup {Obj(<< <<Keys[k], v>> >>) : k \in 1..Len(Keys), v \in P[n - 1]})
-              \cup TwoOf(P, 1, n) \cup TwoOf(P, 2, n) \cup TwoOf(P, 3, n) \cup TwoOf(P, 4, n)]
-GV0 == [n \in 1..MaxNodes |-> IF n = 1 THEN GScalars ELSE {}]
-GV1 == Grow(GV0)
-GV2 == Grow(GV1)
-GV3 == Grow(GV2)
-GVTop == IF MaxDepth = 0 THEN GV0 ELSE IF MaxDepth = 1 THEN GV1 ELSE IF MaxDepth = 2 THEN GV2 ELSE GV3
-ASSUME MaxDepth \in 0..3 /\ MaxNodes \in 1..6
+One(S)    == {List(<<v>>) : v \in S} \cup {Obj(<< <<Keys[k], v>> >>) : k \in 1..Len(Keys), v \in S}
+Two(S, T) == {List(<<v, w>>) : v \in S, w \in T}
+             \cup {Obj(<< <<Keys[p[1]], v>>, <<Keys[p[2]], w>> >>) : p \in KeyPairs, v \in S, w \in T}
+Leaves == GScalars \cup {List(<<>>), Obj(<<>>)}
+L0_1 == GScalars
+L1_1 == Leaves
+L1_2 == One(L0_1)
+L1_3 == Two(L0_1, L0_1)
+L2_1 == Leaves
+L2_2 == One(L1_1)
+L2_3 == One(L1_2) \cup Two(L1_1, L1_1)
+L2_4 == IF MaxNodes < 5 THEN {} ELSE One(L1_3) \cup Two(L1_1, L1_2) \cup Two(L1_2, L1_1)    \* only the 5-node documents use it
+\* the level below the document
+Low(n) == CASE MaxDepth = 1 -> (IF n = 1 THEN L0_1 ELSE {})
+            [] MaxDepth = 2 -> (CASE n = 1 -> L1_1 [] n = 2 -> L1_2 [] n = 3 -> L1_3 [] OTHER -> {})
+            [] MaxDepth = 3 -> (CASE n = 1 -> L2_1 [] n = 2 -> L2_2 [] n = 3 -> L2_3 [] n = 4 -> L2_4 [] OTHER -> {})
+\* the documents, as a predicate, so that TLC enumerates the top level without materialising one big set
+InGrammar(D) == \E n \in 1..MaxNodes :
+    \/ n = 1 /\ D \in Leaves
+    \/ n >= 2 /\ \E v \in Low(n - 1) : D = List(<<v>>)
+    \/ n >= 2 /\ \E k \in 1..Len(Keys) : \E v \in Low(n - 1) : D = Obj(<< <<Keys[k], v>> >>)
+    \/ \E a \in 1..(n - 2) : \E v \in Low(a) : \E w \in Low(n - 1 - a) : D = List(<<v, w>>)
+    \/ \E a \in 1..(n - 2) : \E p \in KeyPairs : \E v \in Low(a) : \E w \in Low(n - 1 - a) :
+          D = Obj(<< <<Keys[p[1]], v>>, <<Keys[p[2]], w>> >>)
+ASSUME MaxDepth \in 1..3 /\ MaxNodes \in 1..5
 
 -----------------------------------------------------------------------------
 \* Part 5: fault injection
@@ -253,7 +263,7 @@ InjRefNested == CanInject /\ \E i \in Cols(doc) : \E j \in Sites(doc, i) : \E k 
                    /\ Do("refNotNested", SetSite(doc, i, j, [SiteStr(doc, i, j) EXCEPT !.r = Name(doc, k)]))
 
 CleanBase(D) == WellTyped(D) /\ Broken(D) = {}
-Init == IF Mode = "grammar" THEN (\E n \in 1..MaxNodes : doc \in GVTop[n]) /\ faults = <<>>
+Init == IF Mode = "grammar" THEN InGrammar(doc) /\ faults = <<>>
         ELSE doc \in {D \in Bases : CleanBase(D)} /\ faults = <<>>
 Next == \/ InjHedType \/ InjValueHash \/ InjCatHash \/ InjHedColumn \/ InjNaKey
         \/ InjBrace \/ InjRefUnknown \/ InjRefSelf \/ InjRefNested
